@@ -205,6 +205,18 @@ impl<'a, C: Crypto> World<'a, C> {
                     },
                 }
             }
+            // `complete()` while the handle stays alive: the handshake still waits for the
+            // acknowledgement of its last message
+            "cpl" => {
+                let Some(h) = handle(w.get(1).copied()) else { return "bad".into() };
+                match self.reserved.iter_mut().find(|(k, _)| *k == h) {
+                    None => "nohandle".into(),
+                    Some((_, r)) => {
+                        r.complete();
+                        "ok".into()
+                    }
+                }
+            }
             "cmp" | "drp" => {
                 let Some(h) = handle(w.get(1).copied()) else { return "bad".into() };
                 match self.reserved.iter().position(|(k, _)| *k == h) {
